@@ -250,7 +250,7 @@ func runCase(b *rt.Built, s *m.Service, meth *m.Method, c *caseRec) string {
 	hc.Stub = harness.StubSpec{HasResult: true, Result: c.Result, View: c.View}
 	obs, err := b.H.Do(hc)
 	if err != nil {
-		return "INCONCLUSIVE harness: " + err.Error()
+		return "INCONCLUSIVE: harness: " + err.Error()
 	}
 	if obs.Err != "" {
 		return "harness could not run the case: " + obs.Err
@@ -308,7 +308,7 @@ func runCase(b *rt.Built, s *m.Service, meth *m.Method, c *caseRec) string {
 		hc2.Canned = canned
 		obs2, err := b.H.Do(&hc2)
 		if err != nil {
-			return "INCONCLUSIVE harness: " + err.Error()
+			return "INCONCLUSIVE: harness: " + err.Error()
 		}
 		if obs2.Panic != "" {
 			return "panic in generated client code on a response labelled with an undefined view: " + firstLines(obs2.Panic, 16)
@@ -331,7 +331,7 @@ func runCase(b *rt.Built, s *m.Service, meth *m.Method, c *caseRec) string {
 		hc2.Canned = canned
 		obs2, err := b.H.Do(&hc2)
 		if err != nil {
-			return "INCONCLUSIVE harness: " + err.Error()
+			return "INCONCLUSIVE: harness: " + err.Error()
 		}
 		if obs2.Panic != "" {
 			return "panic in generated client code: " + firstLines(obs2.Panic, 16)
